@@ -21,7 +21,7 @@ LEVEL_TEXT = ('every schedule of the visible operations of the concurrent proces
               'put of every history the old pairs must be byte-identical and exactly one new complete pair must hold the trashed entry')
 LEVEL_NOTE = ('visible = operations with an entry path in the shared zone (trash dir and its not-yet-existing ancestors); the independence of all other operations is checked by an audit over '
               'the recorded traces, a hit is a harness error; state hashing uses the observation history of each process (sound, finer than necessary)')
-RULE = ('(a) histories of length <= 4 (thorough 6) over {put file a from d1, put dir a from d2, put symlink a from d3} from 6 initial trash states (empty, orphan file payload, orphan dir payload, files/ relocated behind a symbolic link, an info file at the first name and a payload directory at the next, one run with same-named arguments on two volumes (all orders, cold / warm), two same-named arguments after 100 taken names, a trash directory named as --trash-dir LINK/../T with look-alikes where a lexical collapse would point, '
+RULE = ('(a) histories of length <= 4 (thorough 6) over {put file a from d1, put dir a from d2, put symlink a from d3} from 10 initial trash states (empty, orphan file payload, orphan empty file, orphan dangling-link payload, orphan dir payload, files/ relocated behind a symbolic link, an info file at the first name and a payload directory at the next, one run with same-named arguments on two volumes (all orders, cold / warm), two same-named arguments after 100 taken names, a trash directory named as --trash-dir LINK/../T with look-alikes where a lexical collapse would point, '
         'orphan info, both at a_1); names of 244-255 bytes trashed three times (truncation branch); 100 pre-existing entries + 3 puts x all random answer sequences of length 4 over {existing pair, orphan payload, orphan info, fresh}; (b) concurrent harnesses: '
         '2 puts warm, 2 puts cold (first use, the makedirs race), file+dir mix warm, 3 puts warm (thorough: unbounded; quick: preemption bound 2), 2 puts into .Trash-uid cold; distinct = terminal outcome classes per harness')
 B = '/home/u'
